@@ -357,8 +357,8 @@ func c04Run(c *Ctx) {
 func c04SingleFault(c *Ctx) {
 	r := c.R
 	// unknown-option .. bad-choice, then a failing callback and bad values arriving through the environment
-	fault := append(append([]string{}, c09Faults[1:12]...), "callback-error", "bad-env-value", "bad-env-choice", "application-help")[(c.K/4)%15]
-	opts := []flags.Options{flags.HelpFlag, flags.HelpFlag | flags.PassDoubleDash, flags.Default, flags.HelpFlag | flags.PrintErrors, flags.PassDoubleDash, 0, flags.PrintErrors, flags.PrintErrors | flags.PassDoubleDash}[(c.K/60)%8]
+	fault := append(append([]string{}, c09Faults[1:12]...), "callback-error", "bad-env-value", "bad-env-choice", "application-help", "bad-optional-value")[(c.K/4)%16]
+	opts := []flags.Options{flags.HelpFlag, flags.HelpFlag | flags.PassDoubleDash, flags.Default, flags.HelpFlag | flags.PrintErrors, flags.PassDoubleDash, 0, flags.PrintErrors, flags.PrintErrors | flags.PassDoubleDash}[(c.K/64)%8]
 	if c.W.Tier == "race" {
 		opts &^= flags.PrintErrors
 	}
